@@ -120,6 +120,8 @@ def space(tier):
                                     if lp == 2 and not ov_["add_untagged"] and not T:
                                         continue
                                     yield ov_
+                                    if "c" in names and assign[2] != "absent" and lp == 0 and ploidy == 2 and fmt in ("bam", "fastq") and (header or assign[0] != "absent" or assign[1] != "absent") and (T or (all(ov_["req"]) and not ov_["largest"])):
+                                        yield dict(ov_, hashname=True)
 
 
 def option_vectors(ploidy, names, assign, zextra, fmt, lp, cols, header, T):
@@ -176,11 +178,15 @@ def judge(inst):
     os.makedirs(d, exist_ok=True)
     ploidy, names, assign, fmt = inst["ploidy"], inst["names"], inst["assign"], inst["fmt"]
     BLOCK = BLOCKS[inst.get("layout", 0)]
+    # "hashname": read c is called '#c' in the reads file and in the list (a legal name; only the FIRST line of a list
+    # that starts with '#' is a header)
+    ren = (lambda n: "#c" if n == "c" else n) if inst.get("hashname") else (lambda n: n)
     lens = [(i % 3 + 1) if inst["lp"] == 0 else ((i + 1) % 3 if inst["lp"] == 1 else 2) for i in range(len(names))]
     reads_path = os.path.join(d, "reads." + fmt)
-    recs = write_reads(reads_path, fmt, list(zip(names, lens)))
+    recs = write_reads(reads_path, fmt, list(zip([ren(n) for n in names], lens)))
     list_path = os.path.join(d, "list.tsv")
-    entries = [(n, a) for n, a in zip(NAMES, assign) if a != "absent"] + ([(EXTRA, "H1")] if inst["zextra"] else [])
+    entries = [(ren(n), a) for n, a in zip(NAMES, assign) if a != "absent"] + ([(EXTRA, "H1")] if inst["zextra"] else [])
+    BLOCK = dict(BLOCK, **{"#c": BLOCK["c"]})
     with open(list_path, "w") as f:
         if inst["header"]:
             f.write("#readname\thaplotype" + ("\tphaseset\tchromosome" if inst["cols"] == 4 else "") + "\n")
